@@ -135,6 +135,10 @@ def build(pool=None, tag='core', shards=16, force=False):
     sipnames = [b'', b'a', b'Verif.TableA', b'caf\xc3\xa9.Table', b'io.github.eieio.example.MyInterface', b'Add', b'\xff\x80\x7f']
     for n in list(range(0, 40)) + [63, 64, 65, 127, 128, 255, 256, 257, 300]:
         sipnames.append(bytes(rr.choice([rr.randrange(1, 128), rr.randrange(128, 256)]) for _ in range(n)))
+    # names with zero bytes inside: the array overload hashes all Size elements, the literal's final NUL included
+    sipnames += [b'\0', b'\0\0\0', b'com.example.Config\0v1', b'com.example.Config\0v2', b'a\0b\0c\0d\0e\0f\0g\0h\0i', b'\0tail']
+    for n in (5, 8, 13, 16, 33):
+        sipnames.append(bytes(rr.choice([0, 0, rr.randrange(1, 256)]) for _ in range(n)))
     with open(os.path.join(out, 'sip_names.h'), 'w') as f:
         f.write('// generated: names hashed at compile time\nstruct SipName { const char* hex; std::uint64_t table, iface, sel64; std::uint32_t sel32; };\n')
         f.write('static const SipName kSipNames[] = {\n')
